@@ -55,6 +55,9 @@ const (
 	actionExpired = "expired"
 	actionSet     = "set"
 	actionDel     = "del"
+
+	// how many times an optimistic transaction is retried
+	maxTxnRetry = 64
 )
 
 // Rediaron is a store implemented by redis
@@ -209,34 +212,38 @@ func (r *Rediaron) BatchUpdate(ctx context.Context, data map[string]string) erro
 }
 
 // BatchCreate is wrapper to adapt etcd batch create
+// all keys are created, or (when any of them already exists) none is
 func (r *Rediaron) BatchCreate(ctx context.Context, data map[string]string) error {
-	create := func(pipe redis.Pipeliner) error {
-		for key, value := range data {
-			pipe.SetNX(ctx, key, value, 0)
-		}
-		return nil
+	keys := []string{}
+	for k := range data {
+		keys = append(keys, k)
 	}
 
-	cmds, err := r.cli.TxPipelined(ctx, create)
-	if err != nil {
-		return err
-	}
-
-	for _, cmd := range cmds {
-		bc, ok := cmd.(*redis.BoolCmd)
-		if !ok {
-			return ErrBadCmdType
-		}
-
-		created, err := bc.Result()
-		if !created {
-			return ErrAlreadyExists
-		}
+	create := func(tx *redis.Tx) error {
+		e, err := tx.Exists(ctx, keys...).Result()
 		if err != nil {
 			return err
 		}
+		if e != 0 {
+			return ErrAlreadyExists
+		}
+		_, err = tx.TxPipelined(ctx, func(pipe redis.Pipeliner) error {
+			for key, value := range data {
+				pipe.Set(ctx, key, value, 0)
+			}
+			return nil
+		})
+		return err
 	}
-	return nil
+
+	// optimistic lock on the keys: retry if one of them changed in between
+	for i := 0; i < maxTxnRetry; i++ {
+		err := r.cli.Watch(ctx, create, keys...)
+		if !errors.Is(err, redis.TxFailedErr) {
+			return err
+		}
+	}
+	return ErrMaxRetryExceeded
 }
 
 // BatchPut is wrapper to adapt etcd batch replace
